@@ -38,6 +38,7 @@ type Step struct {
 	Kind  string `json:"kind,omitempty"`
 	// sub only: Subscribe(ctx, ch1 … chN) with one context; reader kinds per channel (Kind for all
 	// channels when Kinds is empty); the channels get consecutive tags, H is the first
+	Pre   bool     `json:"pre,omitempty"` // sub only: the context is cancelled before Subscribe is called
 	Chans int      `json:"chans,omitempty"`
 	Kinds []string `json:"kinds,omitempty"`
 	G     int    `json:"g,omitempty"`
@@ -311,6 +312,13 @@ func Execute(sc Scenario, deadline time.Duration) Outcome {
 			w.subs = append(w.subs, group...)
 			w.calls = append(w.calls, c)
 			w.log(Ev{K: "scall", A: first, V: n})
+			if st.Pre {
+				cancel()
+				for _, s := range group {
+					s.cancelled = true
+				}
+				w.log(Ev{K: "cancel", A: first})
+			}
 			w.mu.Unlock()
 			w.wg.Add(n)
 			go func() {
